@@ -416,7 +416,7 @@ class Parser(object):
                 if self.at_p('}'):
                     tail = st[2]
                     break
-                if st[2][0] not in ('if', 'for', 'loop', 'while', 'block', 'unsafe', 'macro'):
+                if st[2][0] not in ('if', 'for', 'loop', 'while', 'block', 'unsafe', 'macro', 'match'):
                     self.err('expected ; after expression statement')
             stmts.append(st)
         self.expect_p('}')
@@ -619,7 +619,7 @@ class Parser(object):
             c = self.parse_expr(no_struct=True)
             return ('while', ln, c, self.parse_block())
         if kw == 'match':
-            self.err('match is outside the supported subset')
+            return self.parse_match()
         if kw == 'unsafe':
             self.i += 1
             return ('unsafe', ln, self.parse_block())
@@ -715,6 +715,44 @@ class Parser(object):
             else:
                 els = self.parse_block()
         return ('if', ln, c, then, els)
+
+    def parse_match(self):
+        """('match', ln, scrutinee, [(pattern, body)]) with patterns ('ppath', ln, segs) | ('pwild', ln) |
+        ('plit', ln, value)"""
+        ln = self.line()
+        self.i += 1
+        scrut = self.parse_expr(no_struct=True)
+        self.expect_p('{')
+        arms = []
+        while not self.at_p('}'):
+            self.skip_attrs()
+            t = self.peek()
+            pl = t[2]
+            if t[0] == 'id' and t[1] == '_':
+                self.i += 1
+                pat = ('pwild', pl)
+            elif t[0] == 'int':
+                self.i += 1
+                pat = ('plit', pl, t[3][0])
+            elif t[0] == 'id':
+                segs = [self.expect_ident()]
+                while self.eat_p('::'):
+                    segs.append(self.expect_ident())
+                if self.at_p('(') or self.at_p('{'):
+                    self.err('enum patterns with fields are outside the supported subset')
+                pat = ('ppath', pl, segs)
+            else:
+                self.err('unsupported match pattern')
+            if self.at_p('|') or self.at_id('if'):
+                self.err('or-patterns / match guards are outside the supported subset')
+            self.expect_p('=>')
+            body = self.parse_expr()
+            arms.append((pat, body))
+            if not self.eat_p(','):
+                if not self.at_p('}') and body[0] != 'block':
+                    self.err('expected , after match arm')
+        self.expect_p('}')
+        return ('match', ln, scrut, arms)
 
     def parse_closure(self):
         ln = self.line()
